@@ -35,4 +35,5 @@ def run(prog: Program, col: Collector, tier: str, refs: Optional[Refs] = None, c
     algebra.r_same_op(prog, col, refs, cat, "R02.7")
     algebra.r_operand_multiplicity(prog, col, refs, cat, "R02.8")
     algebra.r_absent_vars_kernel(prog, col, refs, cat, "R02.9")
+    algebra.r_exact_counts(prog, col, refs, cat, "R02.10")
     return col
